@@ -62,6 +62,9 @@ def normalise(filled):
         if not any(("S", r, "label", l) in F for l in LANGS):
             F.add(("S", r, "label", ""))
     for r in range(NCHOICES):
+        if ("C", r, "NOLABEL", "") in F:
+            F.discard(("C", r, "NOLABEL", ""))
+            continue  # a choice without any label: accepted with a warning
         if not any(("C", r, "label", l) in F for l in LANGS):
             F.add(("C", r, "label", ""))
     for sh, r, c, l in list(F):
@@ -170,6 +173,8 @@ def expected(filled, deflang=None, ref=False):
                         langs.add(l)
                     elif list_itext:
                         langs.add(dl)
+    # a choice with no label and no media at all still has an itextId in an itext-bearing list: placeholder text
+    contentless = {r for r in range(NCHOICES) if not any(("C", r, c, l) in F for c in CCOLS for l in LANGS)}
     exp = {}
     for (sh, i, c), b in bearing.items():
         isref = ref and ((sh == "S" and c in ("constraint_message", "required_message", "label", "hint")) or (sh == "C" and c == "label"))
@@ -182,7 +187,7 @@ def expected(filled, deflang=None, ref=False):
                     v = val(sh, i, c, "") + sfx
                 else:
                     # placeholder only where an entry of this kind exists at all
-                    anyc = any((sh, i, c, l) in F for l in LANGS)
+                    anyc = any((sh, i, c, l) in F for l in LANGS) or (sh == "C" and c == "label" and i in contentless)
                     v = "-" if (c not in MEDIA and anyc) else None
                 exp[(sh, i, c, L)] = v
             else:
